@@ -45,6 +45,15 @@ type hstruct13 struct {
 	ftypes []types.Type
 }
 
+// inline: a field of a heap struct whose type is a heap struct BY VALUE (DList.root DNode[T]): the inner object has the
+// id of the outer one (x.root.f is field f of id x, &x.root is x); no store is emitted for it.  At most one per struct.
+func (t *trans13) inline(ty types.Type) *hstruct13 {
+	if n := t.namedOf(ty); n != nil {
+		return t.heap[n]
+	}
+	return nil
+}
+
 type hfunc13 struct {
 	key     string
 	fd      *ast.FuncDecl
@@ -275,7 +284,14 @@ func (t *trans13) emitTypes() string {
 	// the heap: one store per field of every heap type
 	var projs, tys []string
 	for _, hs := range t.horder {
+		nin := 0
 		for i, f := range hs.fields {
+			if t.inline(hs.ftypes[i]) != nil {
+				if nin++; nin > 1 {
+					t.fail(nil, "two inline struct fields in %s", hs.name)
+				}
+				continue
+			}
 			c, _ := t.ty(hs.ftypes[i], nil)
 			projs = append(projs, hs.name+"_"+f)
 			tys = append(tys, "nat -> "+c)
@@ -299,14 +315,19 @@ func (t *trans13) emitTypes() string {
 	n := 0
 	for _, hs := range t.horder {
 		var ps, args []string
+		nf := 0
 		for i, f := range hs.fields {
+			if t.inline(hs.ftypes[i]) != nil {
+				continue
+			}
 			c, _ := t.ty(hs.ftypes[i], nil)
 			ps = append(ps, fmt.Sprintf("(%s : %s)", f+"'", c))
-			args = append(args, fmt.Sprintf("(hupd (%s s) (h_fresh s) %s)", projs[n+i], f+"'"))
+			args = append(args, fmt.Sprintf("(hupd (%s s) (h_fresh s) %s)", projs[n+nf], f+"'"))
+			nf++
 		}
 		var keep []string
 		for j, pr := range projs[:len(projs)-1] {
-			if j >= n && j < n+len(hs.fields) {
+			if j >= n && j < n+nf {
 				keep = append(keep, args[j-n])
 			} else {
 				keep = append(keep, "("+pr+" s)")
@@ -315,7 +336,7 @@ func (t *trans13) emitTypes() string {
 		fmt.Fprintf(&sb, "(* &%s{...}: a fresh id, every field initialised *)\nDefinition new_%s (s : Heap) %s : Heap * ptr :=\n  (mkHeap %s (S (h_fresh s)), Some (h_fresh s)).\n",
 			hs.name, hs.name, strings.Join(ps, " "), strings.Join(keep, " "))
 		unf = append(unf, "new_"+hs.name)
-		n += len(hs.fields)
+		n += nf
 	}
 	fmt.Fprintf(&sb, "#[export] Hint Unfold %s : go2v.\n", strings.Join(unf, " "))
 	for _, rs := range t.rorder {
@@ -477,7 +498,7 @@ func (t *trans13) function(hf *hfunc13) string {
 	for _, w := range coqReserved {
 		c.used[w] = true
 	}
-	for _, w := range strings.Fields("ptr hupd ptr_eqb h_get h_set Heap mkHeap h_fresh") {
+	for _, w := range strings.Fields("ptr hupd ptr_eqb h_get h_set h_addr Heap mkHeap h_fresh") {
 		c.used[w] = true
 	}
 	var params []string
@@ -733,11 +754,7 @@ func (c *fc13) expr(e ast.Expr, pre *[]string) string {
 		if c.isRecv(x.X) {
 			return fmt.Sprintf("(%s_%s %s)", c.rec.name, x.Sel.Name, c.name(c.recv))
 		}
-		hs := t.isPtr(t.info.Types[x.X].Type)
-		if hs == nil {
-			t.fail(e, "field of a %s", t.info.Types[x.X].Type)
-		}
-		p := c.expr(x.X, pre)
+		p, hs := c.base(x.X, pre)
 		v := c.fresh("v")
 		*pre = append(*pre, fmt.Sprintf("do %s <- h_get (%s_%s h') %s;;", v, hs.name, x.Sel.Name, p))
 		return v
@@ -748,10 +765,39 @@ func (c *fc13) expr(e ast.Expr, pre *[]string) string {
 	return ""
 }
 
+// base: for X in X.f — the pointer term of the object that holds f and its struct.  X is a pointer to a heap struct, or
+// Y.g with g an inline field (then the object is Y's)
+func (c *fc13) base(x ast.Expr, pre *[]string) (string, *hstruct13) {
+	t := c.t
+	if p, ok := x.(*ast.ParenExpr); ok {
+		return c.base(p.X, pre)
+	}
+	xt := t.info.Types[x].Type
+	if hs := t.isPtr(xt); hs != nil {
+		return c.expr(x, pre), hs
+	}
+	if hs := t.inline(xt); hs != nil {
+		if sx, ok := x.(*ast.SelectorExpr); ok {
+			if sel := t.info.Selections[sx]; sel != nil && sel.Kind() == types.FieldVal && len(sel.Index()) == 1 {
+				b, _ := c.base(sx.X, pre)
+				return b, hs
+			}
+		}
+	}
+	t.fail(x, "field of a %s", xt)
+	return "", nil
+}
+
 func (c *fc13) ty(ty types.Type, at ast.Node) string { s, _ := c.t.ty(ty, at); return s }
 
 func (c *fc13) alloc(x *ast.UnaryExpr, pre *[]string) string {
 	t := c.t
+	if sx, ok := x.X.(*ast.SelectorExpr); ok && t.inline(t.info.Types[sx].Type) != nil { // &x.root: the id of x (nil check like Go)
+		b, _ := c.base(sx, pre)
+		v := c.fresh("v")
+		*pre = append(*pre, fmt.Sprintf("do %s <- h_addr %s;;", v, b))
+		return v
+	}
 	cl, ok := x.X.(*ast.CompositeLit)
 	if !ok {
 		t.fail(x, "address of %s", nodeDesc(x.X))
@@ -762,6 +808,9 @@ func (c *fc13) alloc(x *ast.UnaryExpr, pre *[]string) string {
 	}
 	vals := make([]string, len(hs.fields))
 	for i := range hs.fields {
+		if t.inline(hs.ftypes[i]) != nil {
+			t.fail(x, "allocation of a struct with an inline struct field")
+		}
 		_, vals[i] = t.ty(hs.ftypes[i], x)
 	}
 	var es []ast.Expr
@@ -1024,7 +1073,11 @@ func (c *fc13) seq(list []ast.Stmt, tail func() string) string {
 		return out(c.seq(rest, tail))
 	case *ast.IfStmt:
 		if x.Init != nil {
-			t.fail(s, "if with an init statement")
+			as, ok := x.Init.(*ast.AssignStmt)
+			if !ok {
+				t.fail(s, "if with an init statement that is not an assignment")
+			}
+			c.assign(as, &pre) // names are unique per object, so the narrower scope needs no block
 		}
 		cond := c.expr(x.Cond, &pre)
 		var el []ast.Stmt
@@ -1173,14 +1226,10 @@ func (c *fc13) store(lhs ast.Expr, val string, pre *[]string) {
 			*pre = append(*pre, fmt.Sprintf("let %s := set_%s_%s %s %s in", r, c.rec.name, l.Sel.Name, r, val))
 			return
 		}
-		hs := t.isPtr(t.info.Types[l.X].Type)
-		if hs == nil {
-			t.fail(lhs, "assignment to a field of a %s", t.info.Types[l.X].Type)
-		}
 		if changesState13(l.X) {
 			t.fail(lhs, "a left-hand side operand that changes the state")
 		}
-		p := c.expr(l.X, pre)
+		p, hs := c.base(l.X, pre)
 		s := c.fresh("s")
 		*pre = append(*pre, fmt.Sprintf("do %s <- h_set (%s_%s h') %s %s;;", s, hs.name, l.Sel.Name, p, val))
 		*pre = append(*pre, fmt.Sprintf("let h' := set_%s_%s h' %s in", hs.name, l.Sel.Name, s))
